@@ -127,7 +127,7 @@ def run(rep: Report, rng, tier: str, known: dict, search: bool = False) -> None:
 def evidence(rep: Report) -> None:
     write_evidence(
         rep,
-        rule="cases = (expression, point, variable): planted undefined sub-trees (incl. variable-free ones) under skipping parents, rule-directed and random trees over 3 variables with sharing; points inside, outside and on the boundary of the domain, 15% with a coordinate missing; every case runs Expression.at, all numeric routes early and late, and both as_expression() routes; every outcome must be a finite real / an expression / DomainError / CoordinateMissing; non-trivial = >= 3 nodes; distinct by (wire, point, variable)",
+        rule="cases = (expression, point, variable): planted undefined sub-trees (incl. variable-free ones) under skipping parents, rule-directed and random trees over 3 variables with sharing; points inside, outside and on the boundary of the domain, 15% with a coordinate missing; every case runs Expression.at, all numeric routes early and late, and both as_expression() routes; every outcome must be a finite real / an expression / DomainError / CoordinateMissing; non-trivial = >= 3 nodes; distinct by (wire, point, variable); plus variables that occur only in operands the numeric sweeps skip, points with 9-60 unrelated coordinates",
         trusted=common.TRUSTED,
         assumptions=[common.ASSUME_RANGE + " (OverflowError, RecursionError on chains thousands deep and timeouts are counted as skipped: no executable model of the logic exhibits them)"],
     )
